@@ -95,8 +95,10 @@ class Run:
             "wall_s": round(time.time() - self.t0, 2),
             "violations": len(self.violations),
         }
-        EVIDENCE.mkdir(parents=True, exist_ok=True)
-        (EVIDENCE / f"{self.prop}.json").write_text(json.dumps(ev, indent=1, default=str) + "\n")
+        # extension checks (ids X..: behaviour beyond the listed properties) keep their evidence apart from the properties' files
+        evdir = EVIDENCE if not self.prop.startswith("X") else EVIDENCE.parent / "extra" / "evidence"
+        evdir.mkdir(parents=True, exist_ok=True)
+        (evdir / f"{self.prop}.json").write_text(json.dumps(ev, indent=1, default=str) + "\n")
         for fid, what in sorted(self.known_hits.items()):
             print(f"KNOWN-FINDING: property={self.prop} {fid}: {what}")
         for v in self.violations[:20]:
